@@ -19,7 +19,7 @@ func checkC34(c *Ctx, r *Report) {
 	r.Explain = "Shape of the HTTP retry loop: (R1) on every path from one client.Do to the next inside the loop, the request body is either known absent, restorable by net/http itself (GetBody present), or was rewound and the request rebuilt — otherwise the loop is left; (R2) the loop is left when the backoff returns Stop, the retry condition for statuses is conjoined with 'not an accepted code', and success is returned only for accepted codes; (R3) a rebuilt request is made by the same constructor from the same options (method, URL, headers)."
 	r.NotDecided = "Header/URL equality across attempts beyond 'same constructor, same options'; behaviour of net/http itself (that GetBody bodies are restored on reuse is a trusted fact, observed on the installed toolchain)."
 	r.Trusted = append(r.Trusted, "net/http restores the body of a reused *http.Request when Request.GetBody is set")
-	send := r.MustFunc(r.Rule("R1", "E-ORDER(back-edge)", "every path from a client.Do call around the retry loop back to it either leaves through a body-restoration (Seek on the body + newRequest), or is taken only where the body is nil or the request has GetBody", 1), pkgHTTP+".Send")
+	send := r.MustFunc(r.Rule("R1", "E-ORDER(back-edge)", "every path from a client.Do call around the retry loop back to it either leaves through a body-restoration (Seek on the body to the position recorded by Seek(0, SeekCurrent) before the first attempt + newRequest), or is taken only where the body is nil or the request has GetBody", 1), pkgHTTP+".Send")
 	r1 := r.Prop + ".R1"
 	if send == nil {
 		return
@@ -50,7 +50,7 @@ func checkC34(c *Ctx, r *Report) {
 						continue
 					}
 					cn := calleeName(ci.Common())
-					if cn == "(io.Seeker).Seek" && mentionsField(ci.Common().Value, fBody) {
+					if cn == "(io.Seeker).Seek" && mentionsField(ci.Common().Value, fBody) && seeksToRecordedStart(ci, fBody) {
 						seek = true
 					}
 					if cn == pkgHTTP+".newRequest" {
@@ -69,13 +69,13 @@ func checkC34(c *Ctx, r *Report) {
 					return
 				}
 				switch {
-				case mentionsField(b.X, fBody) && !mentionsField(b.X, "net/http.Request.GetBody"):
+				case isPureLoadOf(b.X, fBody):
 					for _, e := range condEdges(b, b.Op == token.EQL) { // body == nil
 						if p.hasEdge(e) {
 							ok = true
 						}
 					}
-				case mentionsField(b.X, "net/http.Request.GetBody"):
+				case isPureLoadOf(b.X, "net/http.Request.GetBody"):
 					for _, e := range condEdges(b, b.Op == token.NEQ) { // GetBody != nil
 						if p.hasEdge(e) {
 							ok = true
@@ -359,4 +359,32 @@ func wrapperCounts(c *Ctx, wrapper *ssa.Alloc) bool {
 		}
 	})
 	return ok
+}
+
+// seeksToRecordedStart: the call is body.Seek(x, io.SeekStart) where x derives from
+// the position returned by a body.Seek(0, io.SeekCurrent) made outside any loop
+// (i.e. before the first attempt): the retry resends from where the first attempt
+// started reading, not from an assumed offset.
+func seeksToRecordedStart(ci ssa.CallInstruction, fBody string) bool {
+	a := ci.Common().Args
+	if len(a) != 2 {
+		return false
+	}
+	if w, ok := intConst(a[1]); !ok || w != 0 { // io.SeekStart
+		return false
+	}
+	return mentions(a[0], func(v ssa.Value) bool {
+		ex, ok := v.(*ssa.Extract)
+		if !ok || ex.Index != 0 {
+			return false
+		}
+		rc, ok := ex.Tuple.(*ssa.Call)
+		if !ok || calleeName(rc.Common()) != "(io.Seeker).Seek" || !mentionsField(rc.Common().Value, fBody) {
+			return false
+		}
+		ra := rc.Common().Args
+		off, ok1 := intConst(ra[0])
+		wh, ok2 := intConst(ra[1])
+		return ok1 && ok2 && off == 0 && wh == 1 && !reaches(rc.Block(), rc.Block())
+	}, 8)
 }
